@@ -270,8 +270,23 @@ def run_model(m):
     try:
         classes = [ns[c] for c in m["classes"]]
         enums = [ns[e] for e in m["enums"]]
-        ctx = XmlContext()
+        gens = m.get("context_generators") or {}
+        from xsdata.utils import text as _text
+        ctx = XmlContext(**{k + "_name_generator": getattr(_text, v) for k, v in gens.items()})
         ex = Exporter(ctx, classes, enums)
+        # what the name generators IN FORCE make of the Python class / field names (the real generator
+        # functions; WHERE they apply is the builder model's business)
+        import dataclasses as _dc
+        gn = {}
+        for c in classes:
+            meta = c.__dict__.get("Meta")
+            eg = getattr(meta, "element_name_generator", ctx.element_name_generator)
+            ag = getattr(meta, "attribute_name_generator", ctx.attribute_name_generator)
+            d = {"__class__": eg(c.__name__)}
+            for f in _dc.fields(c):
+                d[f.name] = (ag if f.metadata.get("type") == "Attribute" else eg)(f.name)
+            gn[c.__name__] = d
+        out["gen_names"] = gn
         for case in m["cases"]:
             res = {"value": None, "table": None, "outcome": None, "skip": None, "events": None}
             out["cases"].append(res)
